@@ -8,6 +8,7 @@ import time
 
 from . import common as C
 from . import gen_store as GS
+from . import gen_pool as GP
 
 ASSUME_COMMON = [
     "TLC and the Go toolchain/runtime (incl. faketime scheduling) are trusted",
@@ -60,10 +61,24 @@ def summarize_trace(path, classes, samples, max_samples=3):
     return traces
 
 
-def explain_reject(job):
+def explain_reject(job, work=None):
     n = job.matched + 1
     line = C.trace_line(job.trace, n)
-    return "trace %s rejected at line %d of %d: %s" % (os.path.basename(job.trace), n, job.lines, (line or "")[:1500])
+    why = ""
+    if work:
+        # re-run with VIP_DEBUG=1: the trace specification prints the first failing comparison
+        try:
+            env = dict(job.env or {})
+            env["VIP_DEBUG"] = "1"
+            _, _, _, out = C.validate_trace(job.module, job.cfg, job.trace, work, focus=job.focus, env=env)
+            import re
+            ms = re.findall(r'<<"MISMATCH at line", (\d+), "([^"]+)">>', out)
+            ms = [m for m in ms if int(m[0]) == n]
+            if ms:
+                why = " [first failing comparison: %s]" % ms[-1][1]
+        except Exception:
+            pass
+    return "trace %s rejected at line %d of %d%s: %s" % (os.path.basename(job.trace), n, job.lines, why, (line or "")[:1500])
 
 
 def trace_family(pid, tier, work, mc, jobs, level_note, rule, extra_cov=None, workers=8):
@@ -83,7 +98,7 @@ def trace_family(pid, tier, work, mc, jobs, level_note, rule, extra_cov=None, wo
     ntraces = nlines = 0
     for j in done:
         if not j.accepted:
-            note = explain_reject(j)
+            note = explain_reject(j, work)
             rp = C.save_replay(pid, [j.trace, os.path.join(work, j.name + ".script.json")], note + "\nfocus=" + j.focus + " module=" + j.module)
             write(pid, tier, mcs, ntraces, nlines, classes, samples, rule, level_note, t0, extra_cov, violations=1)
             raise C.Violation(note, rp)
@@ -160,7 +175,24 @@ def c11(pid, tier, work, replay):
         "reappearing, duplicate and unknown ids, on both drivers; distinct = (operation, ok, error class)")
 
 
+def pool_jobs(tag, focus, s, nt, nops, work, cfg=None, weights=None, chunks=1, drivers=("memory", "badger")):
+    jobs = []
+    for drv in drivers:
+        for c in range(chunks):
+            sc = GP.pool_script(s * 1000 + c * 17 + (3 if drv == "badger" else 0), max(1, nt // chunks), nops, drv, work, cfg=cfg, weights=weights)
+            jobs.append(Job("%s-%s-%d" % (tag, drv, c), sc, "VipPoolTrace", "VipPoolTrace.cfg", focus))
+    return jobs
+
+
+def pxx(pid, tier, work, replay):
+    """development aid: full conformance of the pool to VipPool (focus all)"""
+    s = C.seed()
+    jobs = pool_jobs("pxx", "all", s, 20, 40, work)
+    return trace_family(pid, tier, work, [], jobs, [], "dev")
+
+
 CHECKS = {
+    "PXX": pxx,
     "C05": c05,
     "C11": c11,
     "C12": c12,
